@@ -77,16 +77,23 @@ def build(cls, D, uc, seed):
                 p.copy_(torch.randn(p.shape, generator=g) + 0.1)
             else:
                 p.copy_(torch.rand(p.shape, generator=g) - 0.5)
+        if D >= 32:
+            for n, p in m.named_parameters():
+                p.mul_(0.03)   # keep the wide layer well conditioned
+        if D >= 32 and hasattr(m, "unconstrained_upper_diag"):
+            # wide layer: a diagonal around 0.3 - the determinant (0.3^D) is far below the single-precision
+            # range, its logarithm is an ordinary number
+            m.unconstrained_upper_diag.copy_(torch.log(torch.expm1(torch.full((D,), 0.3) + 0.02 * torch.rand(D, generator=g))))
     return m
 
 
-def perturb_state(m, g):
+def perturb_state(m, g, amp=0.3):
     import torch
 
     sd = {}
     for k, v in m.state_dict().items():
         if v.dtype.is_floating_point:
-            sd[k] = v + 0.3 * torch.randn(v.shape, generator=g).to(v.dtype)
+            sd[k] = v + amp * torch.randn(v.shape, generator=g).to(v.dtype)
         else:
             sd[k] = v.clone()
     return sd
@@ -123,7 +130,8 @@ class Driver:
             self.x0 = torch.randn(4, D, generator=self.g, dtype=torch.float64)
         self.w1 = torch.randn(self.x0.shape, generator=self.g, dtype=torch.float64)
         self.w2 = torch.randn(self.x0.shape[0], generator=self.g, dtype=torch.float64)
-        self.opt = torch.optim.SGD(self.m.parameters(), lr=0.5)
+        self.amp = 0.3 if D < 32 else 0.004      # (a wide triangular factor with O(1) noise is singular in practice)
+        self.opt = torch.optim.SGD(self.m.parameters(), lr=0.5 if D < 32 else 0.005)
         self.dt = "f32"
         self.events = []
         self.history = []
@@ -146,6 +154,14 @@ class Driver:
             x.requires_grad_(True)
         f = mod.forward if dir_ == "fwd" else mod.inverse
         out, lad = f(x)
+        # what callers (the coupling layers among them) do with the returned log-det: accumulate into it in
+        # place.  The same operation must work on the cached path - and must not reach into the cache.
+        if not bw:
+            lad = lad.detach()
+            out = out.detach()
+            lad += 1.0
+            lad -= 1.0
+            out += 0.0
         grad = None
         pgrad = None
         if bw:
@@ -203,14 +219,14 @@ class Driver:
             self.opt.zero_grad(set_to_none=True)
         elif name == "Load":
             if self.variant == "parent":
-                self.box.load_state_dict(perturb_state(self.box, self.g))
+                self.box.load_state_dict(perturb_state(self.box, self.g, self.amp))
             else:
-                m.load_state_dict(perturb_state(m, self.g))
+                m.load_state_dict(perturb_state(m, self.g, self.amp))
             self.bw_since_fill = False
         elif name == "InplaceEdit":
             with torch.no_grad():
                 for p in m.parameters():
-                    p.add_(0.3 * torch.randn(p.shape, generator=self.g).to(p.dtype))
+                    p.add_(self.amp * torch.randn(p.shape, generator=self.g).to(p.dtype))
         elif name == "ToDtype":
             d = str(args[0])
             tgt = self.box if self.variant == "parent" else m
@@ -428,6 +444,10 @@ def main(run, replay=None):
                 for D in ([1, 2, 3] if thorough else ([3] if cls in ("QRLinear", "SVDLinear") else [2])):
                     for rep in range(3 if thorough else 1):
                         tasks.append((cls, D, uc, run.seed * 1000 + 10 * vi + rep, variant, g, init, 6000 if thorough else 2500, 600 if thorough else 150, "%s/D=%d/uc=%s/%s" % (cls, D, uc, variant)))
+    # one wide layer (96 features): quantities that are fine in the log domain leave the float range otherwise
+    gw = graphs[CLASSES["LULinear"]]
+    for init in gw.init:
+        tasks.append(("LULinear", 96, bool(gw.states[init]["usingCache"]), run.seed * 1000 + 77, "direct", gw, init, 1200 if thorough else 260, 40, "LULinear/D=96/uc=%s/direct" % bool(gw.states[init]["usingCache"])))
     traces_by_shape = {}
     pairs_tried = 0
     if True:
